@@ -32,6 +32,7 @@ fn main() {
         ("replay", "subs") => subs::replay(&args),
         ("record", "syncer") => syncer::record(&args),
         ("replay", "syncer") => syncer::replay(&args),
+        ("record", "syncer-slow") => syncer::record_slow(&args),
         ("record", "syncer-aging") => syncer::record_aging(&args),
         ("record", "daser") => daser::record(&args),
         ("replay", "daser") => daser::replay(&args),
